@@ -76,14 +76,22 @@ def layout(pattern: str) -> list[tuple[int, int | None]]:
 
 
 def const_slices(f: FuncInfo, base_pred) -> list[tuple[ast.Subscript, int | None, int | None]]:
+    from .common import xnorm
+
     out = []
     for n in own_nodes(f.node):
-        if isinstance(n, ast.Subscript) and isinstance(n.slice, ast.Slice) and base_pred(norm(n.value)):
+        if isinstance(n, ast.Subscript) and isinstance(n.slice, ast.Slice) and (base_pred(norm(n.value)) or base_pred(xnorm(f.node, n.value))):
             lo = n.slice.lower.value if isinstance(n.slice.lower, ast.Constant) else (None if n.slice.lower is None else "?")
             hi = n.slice.upper.value if isinstance(n.slice.upper, ast.Constant) else (None if n.slice.upper is None else "?")
             if "?" not in (lo, hi):
                 out.append((n, lo, hi))  # type: ignore[arg-type]
     return out
+
+
+def _xn(f: FuncInfo, e: ast.AST) -> str:
+    from .common import xnorm
+
+    return xnorm(f.node, e)
 
 
 def check(ctx: Ctx) -> list[RuleResult]:
@@ -125,11 +133,11 @@ def check(ctx: Ctx) -> list[RuleResult]:
             r1.nontrivial += 1
             want = span
             hit = [n for n, lo, hi in found if norm(n.value) == base and ((lo or 0) if want[0] is not None or lo is not None else None, hi) in {((want[0] or 0) if want[0] is not None else None, want[1]), (want[0], want[1])}]
-            hit = [n for n, lo, hi in found if norm(n.value) == base and (lo or 0) == (want[0] or 0) and hi == want[1]]
+            hit = [n for n, lo, hi in found if base in (norm(n.value), _xn(f, n.value)) and (lo or 0) == (want[0] or 0) and hi == want[1]]
             if hit:
                 r1.ok({"site": f"{f.short}: {norm(hit[0])}", "field": what, "columns": [want[0], want[1]]})
             else:
-                have = sorted({norm(n) for n, lo, hi in found if norm(n.value) == base})
+                have = sorted({norm(n) for n, lo, hi in found if base in (norm(n.value), _xn(f, n.value))})
                 r1.fail(f"{f.short}:{base}:{what}", f.loc(), f"{f.short} reads the {what} field with {have}, but COMMAND_REGEX puts it at columns {want[0]}:{want[1]}")
         # any other constant slice of the frame text in this function must still sit on field boundaries
         for n, lo, hi in found:
@@ -234,7 +242,15 @@ def check(ctx: Ctx) -> list[RuleResult]:
         a, b, c, d = n.values
         return isinstance(a, ast.Constant) and a.value == " " and isinstance(c, ast.Constant) and c.value == " " and isinstance(b, ast.FormattedValue) and "_rssi" in norm(b.value) and isinstance(d, ast.FormattedValue) and "frame" in norm(d.value)
 
-    if any(_is_frame_field(n) for n in own_nodes(mk.node)):
+    from .common import str_template
+
+    def _tmpl_is_frame_field(n: ast.AST) -> bool:
+        if not (isinstance(n, (ast.JoinedStr, ast.BinOp)) or (isinstance(n, ast.Call) and isinstance(n.func, ast.Attribute) and n.func.attr in ("format", "join"))):
+            return False
+        t = str_template(mk.node, n)
+        return len(t) == 4 and t[0] == ("lit", " ") and t[2] == ("lit", " ") and t[1][0] == "var" and "_rssi" in t[1][1] and t[3][0] == "var" and "frame" in t[3][1]
+
+    if any(_is_frame_field(n) or _tmpl_is_frame_field(n) for n in own_nodes(mk.node)):
         r2.ok({"frame_field": "' ' + rssi + ' ' + frame"})
     else:
         r2.fail(f"{mk.short}:frame-field", mk.loc(), "the logged frame field is no longer ' <rssi> <frame>' (one separator after the timestamp)")
@@ -263,10 +279,16 @@ def check(ctx: Ctx) -> list[RuleResult]:
     r3 = RuleResult("R3", "field-order agreement", "printers join the fields in the order the parser reads them", min_instances=3)
     fi = repo.func("ramses_tx.frame.Frame.__init__")
     read: dict[str, int] = {}
+    from .common import expand
+
     for n in own_nodes(fi.node):
-        if isinstance(n, (ast.Assign, ast.AnnAssign)) and n.value is not None and isinstance(n.value, ast.Subscript) and norm(n.value.value) == "fields" and isinstance(n.value.slice, ast.Constant):
+        if isinstance(n, (ast.Assign, ast.AnnAssign)) and n.value is not None:
             tgt = n.targets[0] if isinstance(n, ast.Assign) else n.target
-            read[norm(tgt).replace("self.", "")] = n.value.slice.value
+            if not (isinstance(tgt, ast.Attribute) and isinstance(tgt.value, ast.Name) and tgt.value.id == "self"):
+                continue
+            v = expand(fi.node, n.value)  # `self.len_ = len_field` with `len_field = fields[6]` reads field 6
+            if isinstance(v, ast.Subscript) and norm(v.value) == "fields" and isinstance(v.slice, ast.Constant):
+                read[tgt.attr] = v.slice.value
     r3.instances += 1
     r3.nontrivial += 1
     exp = {"seqn": 1, "code": 5, "len_": 6, "payload": 7}
@@ -375,7 +397,10 @@ def check(ctx: Ctx) -> list[RuleResult]:
         for n in ast.walk(st):
             if isinstance(n, ast.Call) and isinstance(n.func, ast.Attribute) and n.func.attr == "partition":
                 seq.append(n.args[0].value)  # type: ignore[attr-defined]
-    emitted = sorted({v.value.strip() for n in own_nodes(mk.node) if isinstance(n, ast.JoinedStr) and len(n.values) == 2 for v in n.values[:1] if isinstance(v, ast.Constant) and v.value.strip() in ("#", "*", "<") and v.value == f" {v.value.strip()} "})
+    # the annotation delimiters the logger writes: string constants ' # ', ' * ', ' < ' in makeRecord or the module-level helpers it
+    # calls - whether spelled in an f-string, passed to str.format() or handed to a helper as an argument
+    _mk_scope = [mk] + [c for site in ctx.cg.calls_in(mk) for c in site.callees if c.module is mk.module]
+    emitted = sorted({c.value.strip() for g in _mk_scope for c in ast.walk(g.node) if isinstance(c, ast.Constant) and isinstance(c.value, str) and len(c.value) == 3 and c.value[0] == " " and c.value[2] == " " and c.value[1] in "#*<"})
     r4.instances += 1
     r4.nontrivial += 1
     if sorted(seq) == emitted == ["#", "*", "<"]:
